@@ -84,3 +84,11 @@ claim('C13',
       'created with end = start + size; a window is released iff end <= watermark, results are stamped with the window end, only '
       'active slots produce results, FlushAndRestart/Terminate drain every slot; no manager keeps a slot across an iteration end.',
       'conservation for arbitrary out-of-order sequences; the numeric slot arithmetic.')
+claim('C19',
+      'ports are assigned only after coords.sort(), one fresh per-host offset per endpoint, every link (also remote-to-remote) is '
+      'recorded before the early return; graph-building code iterates only seedless Fx/IndexMap maps apart from two frozen '
+      'order-insensitive sites; each replica takes the current global counter which is incremented in the same loop, Limited takes '
+      'min(remaining, cores) and subtracts it; the forward-wiring predicate equals the required 32-row truth table; to_remote / mux / '
+      'demux guards.',
+      'equality of the graphs for concrete configurations (needs evaluation); finding F5 (forward link to a narrower block) is a '
+      'plan-shape issue reported under C19.R6 when armed.')
